@@ -606,19 +606,24 @@ fn impl_object_for_struct(ast: &DeriveInput, fields: &Fields) -> SynStream {
         let key = attrs.key();
 
         let ty = field.ty.clone();
+        // An entry whose value is `null`, or a reference to an object that does not exist (which is a
+        // reference to the null object), is the same as an absent entry.
         if let Some(ref default) = attrs.default() {
             quote! {
                 let #name = {
                     let primitive: Option<pdf::primitive::Primitive>
                         = dict.remove(#key);
                     let x: #ty = match primitive {
-                        Some(primitive) => <#ty as pdf::object::Object>::from_primitive(primitive, resolve).map_err(|e|
-                            pdf::error::PdfError::FromPrimitive {
+                        Some(pdf::primitive::Primitive::Null) | None => #default,
+                        Some(primitive) => match <#ty as pdf::object::Object>::from_primitive(primitive, resolve) {
+                            Ok(obj) => obj,
+                            Err(e) if e.is_missing_object() => #default,
+                            Err(e) => return Err(pdf::error::PdfError::FromPrimitive {
                                 typ: #typ,
                                 field: stringify!(#name),
                                 source: Box::new(e)
-                            })?,
-                        None => #default,
+                            })
+                        }
                     };
                     x
                 };
@@ -626,16 +631,21 @@ fn impl_object_for_struct(ast: &DeriveInput, fields: &Fields) -> SynStream {
         } else {
             quote! {
                 let #name = {
-                    match dict.remove(#key) {
+                    let present = match dict.remove(#key) {
                         Some(primitive) =>
                             match <#ty as pdf::object::Object>::from_primitive(primitive, resolve) {
-                                Ok(obj) => obj,
+                                Ok(obj) => Some(obj),
+                                Err(e) if e.is_missing_object() => None,
                                 Err(e) => return Err(pdf::error::PdfError::FromPrimitive {
                                     typ: stringify!(#ty),
                                     field: stringify!(#name),
                                     source: Box::new(e)
                                 })
                             }
+                        None => None
+                    };
+                    match present {
+                        Some(obj) => obj,
                         None =>  // Try to construct T from Primitive::Null
                             match <#ty as pdf::object::Object>::from_primitive(pdf::primitive::Primitive::Null, resolve) {
                                 Ok(obj) => obj,
